@@ -103,6 +103,7 @@ class LG:
             "decoy_after", "decoy_prevline", "decoy_nextline", "oneline_def_lambda", "in_list", "in_dict", "multiline_body", "semicolon", "comment_lines", "kwarg_after",
             "trailing_comma", "chain_multibody", "nested_call_arg", "cond_expr", "backslash", "comprehension", "where_single", "where_chain", "lambda_own_line_chain",
             "decoy_default_arg", "string_noise_line", "def_by_name", "def_by_name_docstring", "lambda_var", "three_chain_args",
+            "cond_lambda_arg", "list_lambda_arg", "or_lambda_arg", "dict_lambda_arg", "wrapped_lambda_arg",
         ])
         p = self.pname()
         B = lambda **kw: self.body(p, **kw)  # noqa
@@ -203,6 +204,22 @@ class LG:
         if t == "comprehension":
             b, f = B()
             return t, False, True, f"r = [ds.Select(lambda {p}: {b}) for _ in range(1)][0]", f
+        if t == "cond_lambda_arg":
+            (b1, f), (b2, _) = B(), B()
+            flag = r.choice(["True", "False"])
+            return t, False, True, f"r = ds.Select((lambda {p}: {b1}) if {flag} else (lambda {p}: {b2}))", f
+        if t == "list_lambda_arg":
+            (b1, f), (b2, _) = B(), B()
+            return t, False, True, f"r = ds.Select([lambda {p}: {b1}, lambda {p}: {b2}][{r.randint(0, 1)}])", f
+        if t == "or_lambda_arg":
+            (b1, f), (b2, _) = B(), B()
+            return t, False, True, f"r = ds.Select({r.choice(['None', '0'])} or (lambda {p}: {b1}) or (lambda {p}: {b2}))", f
+        if t == "dict_lambda_arg":
+            (b1, f), (b2, _) = B(), B()
+            return t, False, True, f"r = ds.Select({{'a': lambda {p}: {b1}, 'b': lambda {p}: {b2}}}['{r.choice('ab')}'])", f
+        if t == "wrapped_lambda_arg":
+            (b1, f), (b2, _) = B(), B()
+            return t, False, True, f"r = ds.Select(keep(lambda {p}: {b1}, lambda {p}: {b2}))", f
         if t == "def_by_name":
             return t, True, False, "@DEFNAME", "attr"
         if t == "def_by_name_docstring":
